@@ -24,6 +24,16 @@ log, every crash point, every FAT width and table length, every valid geometry:
 * `c12_path_frame`     path resolution through directories whose bytes are unchanged gives the
                        same result, for any directory scan function.
 
+* `c12_fs_outside_footprint`  per primitive (`Model.Fs`, every reachable state, every call, however it
+                       ends): an entry that is neither the call's target nor the target's parent directory is an
+                       entry of the state after the call — same chain, same size — and shares no cluster with any
+                       other entry of that state, in particular none with the target or the rewritten directory;
+                       together with `c04_fs_no_leak` (clusters newly taken were free) this is the premise "the
+                       call's data writes miss the clusters of `cs`" of `c12_crash_frame_*` for every protected
+                       entry, provided the call writes data only to clusters of its target, of the parent
+                       directory and to clusters that were free — which suite `fsmodel` checks on the device log
+                       of every real call.
+
 Tie to the code: the premises of `c12_crash_frame_*` are checked on every real write
 log by suite `crash` (each write classified: reserved region / whole FAT copy with
 entries of protected chains compared / root area / clusters that are free in the
@@ -34,6 +44,7 @@ mounting and reading through the real directory code is decided by mounting ever
 distinct crash image with the real code.
 -/
 import PyFatModel.Proofs.Crash
+import PyFatModel.Proofs.FsFrame
 
 open Model.Crash Model.FatTable Model.Bytes Model.Geom Model.Alloc Model.FatMachine
 open Proofs.Crash Proofs.FatRep
@@ -208,5 +219,13 @@ def C12_proved_core : Prop :=
 theorem c12_partial : C12_proved_core :=
   fun b v base ws cs c rest size len hfat hbytes hchain hcs hin hw k j =>
     c12_crash_frame_fat12 b v base ws cs c rest size len hfat hbytes hchain hcs hin hw k j
+
+/-- per primitive: what lies outside the footprint of a call is untouched by its bookkeeping -/
+theorem c12_fs_outside_footprint (v : Model.Fs.Vol) (count : Nat) (hv : Proofs.FsInv.VolOK v count) (s : Model.Fs.St)
+    (h : Proofs.FsInv.Inv v count s) (op : Model.Fs.Op) (g : Model.Fs.Node) (hg : g ∈ s.nodes)
+    (hp : g.path ≠ Proofs.FsFrame.opPath op) (hpd : g.path ≠ (Proofs.FsFrame.opPath op).dropLast) :
+    g ∈ (Model.Fs.step v s op).1.nodes ∧
+      ∀ x ∈ (Model.Fs.step v s op).1.nodes, x ≠ g → ∀ c ∈ g.chain, c ∉ x.chain :=
+  Proofs.FsFrame.outside_footprint_untouched hv h op g hg hp hpd
 
 end Props.C12
